@@ -2967,6 +2967,82 @@ impl Sim {
 
 //------------ C27: corrupt local data --------------------------------------
 
+/// Changes one structural field of an object archive (`utils::archive`):
+/// an index entry or a field of an object header, found by walking the
+/// file. Layout: 6 bytes magic, 16 bytes hash key, bucket count (native
+/// `usize`), `bucket count + 1` positions (`u64`), then objects, each with a
+/// header of size, next (`u64`), empty flag (1 byte), name and data length
+/// (`usize`).
+fn corrupt_archive_structure(data: &mut [u8], rng: &mut Rng) -> Option<String> {
+    let u64_at = |data: &[u8], at: usize| -> Option<u64> {
+        Some(u64::from_ne_bytes(data.get(at..at + 8)?.try_into().ok()?))
+    };
+    let buckets = u64_at(data, 22)? as usize;
+    if buckets == 0 || buckets > 1 << 20 { return None }
+    let index_start = 30usize;
+    let objects_start = index_start + (buckets + 1) * 8;
+    // Walk the objects.
+    let mut headers = Vec::new();
+    let mut pos = objects_start;
+    while pos + 33 <= data.len() && headers.len() < 10_000 {
+        let size = u64_at(data, pos)? as usize;
+        let empty = data[pos + 16] != 0;
+        headers.push((pos, empty));
+        if size < 33 || pos + size > data.len() { break }
+        pos += size;
+    }
+    let choose_value = |rng: &mut Rng, old: u64| -> u64 {
+        match rng.below(8) {
+            0 => old ^ 1,
+            1 => old.wrapping_add(1),
+            2 => old.wrapping_sub(1),
+            3 => old ^ (1 << rng.below(16)),
+            4 => old.wrapping_add(256),
+            5 => 0,
+            6 => *rng.pick(&[u64::MAX, 1 << 63, 1 << 40, 1 << 32, 0xffff_ffff]),
+            _ => rng.below(1 << 20),
+        }
+    };
+    if !headers.is_empty() && rng.chance(70, 100) {
+        // Prefer empty objects: they are what the next write will use.
+        let empties: Vec<_> = headers.iter().filter(|h| h.1).collect();
+        let (pos, empty) = if !empties.is_empty() && rng.chance(60, 100) {
+            **rng.pick(&empties)
+        } else { *rng.pick(&headers) };
+        let (name, off, width) = *rng.pick(&[
+            ("size", 0usize, 8usize), ("size", 0, 8), ("next", 8, 8),
+            ("empty flag", 16, 1), ("name length", 17, 8),
+            ("data length", 25, 8),
+        ]);
+        if width == 1 {
+            data[pos + 16] = if rng.chance(50, 100) { data[pos + 16] ^ 1 }
+                else { rng.below(256) as u8 };
+            return Some(format!(
+                "{name} of the {} object at {pos} changed",
+                if empty { "empty" } else { "live" }
+            ))
+        }
+        let old = u64_at(data, pos + off)?;
+        let new = choose_value(rng, old);
+        data[pos + off..pos + off + 8].copy_from_slice(&new.to_ne_bytes());
+        Some(format!(
+            "{name} of the {} object at {pos}: {old} -> {new}",
+            if empty { "empty" } else { "live" }
+        ))
+    }
+    else {
+        // An index entry; the last one heads the list of empty objects.
+        let k = if rng.chance(30, 100) { buckets } else { rng.usize(buckets + 1) };
+        let at = index_start + k * 8;
+        let old = u64_at(data, at)?;
+        let new = if !headers.is_empty() && rng.chance(50, 100) {
+            rng.pick(&headers).0 as u64 + rng.below(2)
+        } else { choose_value(rng, old) };
+        data.get_mut(at..at + 8)?.copy_from_slice(&new.to_ne_bytes());
+        Some(format!("index entry {k}: {old} -> {new}"))
+    }
+}
+
 /// How a run in a forked child ended.
 #[derive(Clone, Debug, PartialEq, Eq)]
 enum ChildEnd {
@@ -3097,7 +3173,14 @@ impl Sim {
                 let path = rng.pick(&files).clone();
                 let mut data = std::fs::read(&path).unwrap_or_default();
                 let rel = path.strip_prefix(&cache).unwrap().display().to_string();
-                let kind = rng.below(9);
+                let mut kind = rng.below(9);
+                // Half of the corruptions of an RRDP archive aim at its
+                // structure: an index entry or a field of an object header.
+                let mut structural = None;
+                if rel.starts_with("rrdp/") && rng.chance(50, 100) {
+                    structural = corrupt_archive_structure(&mut data, &mut rng);
+                }
+                if structural.is_some() { kind = 100; }
                 // Offsets are biased towards the start where headers and
                 // length fields live.
                 let mut offset = |rng: &mut Rng, len: usize| -> usize {
@@ -3160,6 +3243,7 @@ impl Sim {
                         for b in data.iter_mut().skip(at).take(len) { *b = 0xff }
                         format!("{len} 0xff bytes at {at}")
                     }
+                    100 => structural.take().unwrap(),
                     7 => {
                         let len = 1 + rng.usize(200);
                         let mut extra = vec![0u8; len];
